@@ -643,9 +643,9 @@ def run_job(job: dict[str, Any], tmp: Path):
                         rec["failures"].append((k, tagp + wh, r))
         # A difference between the copy (reader) and the original (writer) is attributed to the serialization
         # only if a *twin* - the same item built and used by the reader's interpreter, never serialized - does not
-        # show it too: some classes behave differently under another hash seed by themselves (the order in which
-        # an MDA differentiates its inputs comes from a set: the state left by a finite-difference linearization
-        # depends on it), which is not what this property is about.
+        # differ from the writer's original in the same respect: some classes behave differently under another
+        # hash seed by themselves (the order in which an MDA differentiates its inputs comes from a set: the state
+        # left by a finite-difference linearization depends on it), which is not what this property is about.
         for r, idx in pending.items():
             (d / f"twin_{r}.json").write_text(json.dumps(sorted(idx)))
             rc, err = _child(["twin", str(d), str(r)], int(r))
@@ -661,10 +661,14 @@ def run_job(job: dict[str, Any], tmp: Path):
                 rec = items_out[i]
                 if not t or "error" in t:
                     continue
-                still = differences(OBS, t, o, strip_durations=True)
+                # in which respects does this class depend on the interpreter *without* any serialization?
+                # (the twin of the reader against the original of the writer; e.g. the residual history of an
+                #  MDA: the copy carries the writer's history and continues it in the reader's order)
+                w = exp["records"][i]
+                by_itself = differences(OBS, w, t, strip_durations=True)
                 kept = []
                 for k, wh, rr in rec["failures"]:
-                    if rr == r and (k.startswith(("view-differs", "execute-differs", "linearize-differs", "behaviour-differs"))) and k not in still:
+                    if rr == r and (k.startswith(("view-differs", "execute-differs", "linearize-differs", "behaviour-differs"))) and k in by_itself:
                         rec.setdefault("interpreter_dependent", []).append(k)
                         continue
                     kept.append((k, wh, rr))
